@@ -195,6 +195,24 @@ def run(ctx, build):
                 okc = False
             if not okc:
                 violate('anc_build_utils.create_spec_inds_from_vals', 'closely_spaced_values', 'indices_not_reproduced', str(desc), desc)
+    # (a') reference values held in float64 that float32 cannot tell apart: the unit values reported must be the values themselves
+    for base, step in ((0.1, 1e-9), (1600000000.0, 1.0), (1000000.1, 0.1)):
+        for sz, order in (([3, 2], [0, 1]), ([2, 3], [1, 0])):
+            lay = gen.Layout(sz, order, sz, order)
+            inds = lay.spec_inds()
+            uv = [base * (d + 1) + np.arange(sz[d]) * step for d in range(len(sz))]
+            vals = np.array([uv[d][inds[d]] for d in range(len(sz))], dtype=np.float64)
+            desc = {'sizes': sz, 'order_fast_to_slow': order, 'values': 'float64 base %r step %r' % (base, step)}
+            hist['designed_wide_cases'] += 1
+            names = ['d%d' % d for d in range(len(sz))]
+            for shape_name, (ii, vv, isp) in (('spectroscopic-shaped', (inds, vals, True)), ('position-shaped', (inds.T, vals.T, False))):
+                try:
+                    got = get_unit_values(ii, vv, all_dim_names=names, is_spec=isp)
+                    okv = all([float(x) for x in got[names[d]]] == [float(x) for x in uv[d]] for d in range(len(sz)))
+                except Exception as e:
+                    okv = False
+                if not okv:
+                    violate('hdf_utils.get_unit_values', 'float64_reference_values', 'unit_values_wrong', '%s on %s' % (shape_name, desc), dict(desc, given=shape_name))
     # (b) index matrices stored in a narrow integer type whose range a dimension fills exactly; (c) more points than 16 bits count
     wide = [(np.uint8, [256, 2], [0, 1]), (np.uint8, [2, 256], [0, 1]), (np.uint16, [65536, 2], [0, 1]), (np.uint32, [3, 21846], [0, 1]),
             (np.uint32, [13108, 5], [0, 1]), (np.uint32, [21846, 3], [1, 0])]
